@@ -302,6 +302,30 @@ def apply_express_fault(text, f):
         if f.get("unbalanced"):
             return text[:s] + "(" * d + text[s:], True, "open-paren"
         return text[:s] + "(" * d + text[s:e] + ")" * d + text[e:], True, "wrap-paren"
+    if kind in ("quote-del", "newline-in-string"):
+        strs = [t for t in toks if t[2] == "string"]
+        if not strs:
+            return text, False, "no-string"
+        s, e, tk = strs[f["tok"] % len(strs)]
+        if kind == "quote-del":
+            if f.get("which") == "open":
+                return text[:s] + text[s + 1:], True, "open-quote"
+            return text[:e - 1] + text[e:], True, "close-quote"
+        mid = s + 1 + (f.get("at", 0) % max(1, e - s - 1))
+        return text[:mid] + "\n" + text[mid:], True, "string"
+    if kind == "quote-ins":
+        s, e, tk = toks[f["tok"] % len(toks)]
+        return text[:s] + f.get("ch", "'") + text[s:], True, "before-" + tk
+    if kind in ("id-subst", "kw-subst"):
+        ids = [t for t in toks if t[2] == "keyword" and (text[t[0]:t[1]].upper() in RESERVED) == (kind == "kw-subst")]
+        if len(ids) < 2:
+            return text, False, "no-identifiers"
+        s, e, tk = ids[f["tok"] % len(ids)]
+        s2, e2, tk2 = ids[f["with"] % len(ids)]
+        return text[:s] + text[s2:e2] + text[e:], text[s:e] != text[s2:e2], "identifier" if kind == "id-subst" else "reserved-word"
+    if kind == "garble":
+        s, e, tk = toks[f["tok"] % len(toks)]
+        return text[:s] + f.get("text", "") + text[e:], text[s:e] != f.get("text", ""), "garble-" + tk
     if kind == "nonascii":
         s, e, tk = toks[f["tok"] % len(toks)]
         return text[:s] + f.get("bytes", "\xe9\xff") + text[s:], True, "before-" + tk
@@ -309,6 +333,14 @@ def apply_express_fault(text, f):
         t = text.rstrip("\n")
         return t, t != text, "eof"
     raise ValueError(kind)
+
+
+RESERVED = set("""ABS ABSTRACT ACOS AGGREGATE ALIAS AND ANDOR ARRAY AS ASIN ATAN BAG BEGIN BINARY BLENGTH BOOLEAN BY CASE CONST_E CONSTANT COS
+DERIVE DIV ELSE END END_ALIAS END_CASE END_CONSTANT END_ENTITY END_FUNCTION END_IF END_LOCAL END_PROCEDURE END_REPEAT END_RULE END_SCHEMA
+END_TYPE ENTITY ENUMERATION ESCAPE EXISTS EXP FALSE FIXED FOR FORMAT FROM FUNCTION GENERIC HIBOUND HIINDEX IF IN INSERT INTEGER INVERSE LENGTH
+LIKE LIST LOBOUND LOCAL LOG LOG10 LOG2 LOGICAL LOINDEX MOD NOT NUMBER NVL ODD OF ONEOF OPTIONAL OR OTHERWISE PI PROCEDURE QUERY REAL REFERENCE
+REMOVE REPEAT RETURN ROLESOF RULE SCHEMA SELECT SELF SET SIN SIZEOF SKIP SQRT STRING SUBTYPE SUPERTYPE TAN THEN TO TRUE TYPE TYPEOF UNIQUE
+UNKNOWN UNTIL USE USEDIN VALUE VALUE_IN VALUE_UNIQUE VAR WHERE WHILE XOR""".split())
 
 
 def apply_all_express(text, faults):
@@ -323,8 +355,20 @@ def apply_all_express(text, faults):
 
 
 def gen_express_fault(r):
-    k = r.choice(["truncate", "flip", "nul", "hibit", "tok-del", "tok-del", "tok-dup", "tok-swap", "tok-swap", "stretch", "stretch", "nest", "nonascii", "no-final-newline"])
+    k = r.choice(["truncate", "flip", "nul", "hibit", "tok-del", "tok-del", "tok-dup", "tok-swap", "tok-swap", "stretch", "stretch", "nest", "nonascii", "no-final-newline",
+                  "quote-del", "newline-in-string", "quote-ins", "id-subst", "id-subst", "id-subst", "kw-subst", "kw-subst", "garble"])
     big = r.randint(0, 10 ** 9)
+    if k == "quote-del":
+        return {"kind": k, "tok": big, "which": r.choice(["open", "close", "close"])}
+    if k == "newline-in-string":
+        return {"kind": k, "tok": big, "at": r.randint(0, 10 ** 6)}
+    if k == "quote-ins":
+        return {"kind": k, "tok": big, "ch": r.choice(["'", "'", '"', "%", "(*", "*)", "--"])}
+    if k in ("id-subst", "kw-subst"):
+        return {"kind": k, "tok": big, "with": r.randint(0, 10 ** 9)}
+    if k == "garble":
+        alphabet = "()[]{};:,.=<>+-*/\\|?'\"%_ 1aE\n"
+        return {"kind": k, "tok": big, "text": "".join(r.choice(alphabet) for _ in range(r.choice([1, 1, 2, 2, 3, 4])))}
     if k == "truncate":
         return {"kind": k, "at": big}
     if k == "flip":
@@ -344,8 +388,14 @@ def gen_express_fault(r):
 
 def pathological_schema(r):
     """synthetic lexical stress: -> (name, text, label)"""
-    c = r.choice(["deep-scopes", "deep-if", "deep-expr", "long-remark", "long-string", "long-identifier", "many-entities", "deep-select", "deep-subtype"])
+    c = r.choice(["deep-scopes", "deep-if", "deep-expr", "long-remark", "long-string", "long-identifier", "many-entities", "deep-select", "deep-subtype",
+                  "use-cycle", "use-cycle", "self-use", "function-as-value", "long-binary", "long-encoded", "wide-expr", "deep-aggregate-type", "deep-index",
+                  "deep-query", "many-params", "supertype-expr", "subtype-cycle", "select-cycle", "type-cycle", "long-where-label", "many-enum-items",
+                  "rename-clash", "derive-cycle"])
     n = r.choice([21, 30, 100])
+    multi = _patho_more(r, c, n)
+    if multi is not None:
+        return "patho", multi, "%s-%d" % (c, n)
     if c == "deep-scopes":
         body = "".join("FUNCTION f%d : INTEGER;\n" % k for k in range(n)) + "RETURN (1);\n" + "".join("END_FUNCTION;\nRETURN (1);\n" for _ in range(n - 1)) + "END_FUNCTION;\n"
         text = "SCHEMA patho;\n" + body + "END_SCHEMA;\n"
@@ -370,3 +420,75 @@ def pathological_schema(r):
     else:
         text = "SCHEMA patho;\nENTITY e0; a : INTEGER;\nEND_ENTITY;\n" + "".join("ENTITY e%d SUBTYPE OF (e%d); b%d : INTEGER;\nEND_ENTITY;\n" % (k + 1, k, k) for k in range(n)) + "END_SCHEMA;\n"
     return "patho", text, "%s-%d" % (c, n)
+
+
+def _patho_more(r, c, n):
+    """second batch of synthetic shapes: reference structure (cycles, renames, kind confusion) and long/wide/deep expressions"""
+    if c == "use-cycle":
+        kw1, kw2 = r.choice([("USE", "USE"), ("REFERENCE", "REFERENCE"), ("USE", "REFERENCE")])
+        extra = r.choice(["", "%s FROM a (nosuch);\n" % kw1, "%s FROM a (e AS f);\n" % kw1, "%s FROM b (nosuch AS other);\n" % kw2])
+        return ("SCHEMA a;\n%s FROM b;\nENTITY e; x : INTEGER;\nEND_ENTITY;\nEND_SCHEMA;\n"
+                "SCHEMA b;\n%s FROM a;\n%sENTITY g; y : INTEGER;\nEND_ENTITY;\nEND_SCHEMA;\n" % (kw1, kw2, extra))
+    if c == "self-use":
+        kw = r.choice(["USE", "REFERENCE"])
+        return "SCHEMA patho;\n%s FROM patho%s;\nENTITY e; x : INTEGER;\nEND_ENTITY;\nEND_SCHEMA;\n" % (kw, r.choice(["", " (e)", " (e AS f)", " (nosuch)"]))
+    if c == "function-as-value":
+        use = r.choice(["y : INTEGER := f;", "y : INTEGER := f + 1;", "y : INTEGER := e;", "y : INTEGER := t;", "y : INTEGER := p;", "y : INTEGER := f.x;", "y : INTEGER := f[1];",
+                        "y : INTEGER := patho;", "y : INTEGER := f(1)(2);", "y : INTEGER := f();", "y : INTEGER := f(1, 2, 3);", "y : INTEGER := e(1);", "y : INTEGER := SIZEOF;"])
+        return ("SCHEMA patho;\nTYPE t = INTEGER; END_TYPE;\nFUNCTION f (a : INTEGER) : INTEGER;\nRETURN (a);\nEND_FUNCTION;\nPROCEDURE p (a : INTEGER);\nEND_PROCEDURE;\n"
+                "ENTITY e; x : INTEGER;\nDERIVE\n %s\nEND_ENTITY;\nEND_SCHEMA;\n" % use)
+    if c == "long-binary":
+        L = r.choice([300, 10000, 100000])
+        return "SCHEMA patho;\nCONSTANT c : BINARY := %" + "".join(r.choice("01") for _ in range(L)) + ";\nEND_CONSTANT;\nEND_SCHEMA;\n"
+    if c == "long-encoded":
+        L = r.choice([304, 10000, 100000]) // 8 * 8
+        return "SCHEMA patho;\nCONSTANT c : STRING := \"" + "0000004A" * (L // 8) + "\";\nEND_CONSTANT;\nEND_SCHEMA;\n"
+    if c == "wide-expr":
+        m = r.choice([100, 1000, 10000])
+        op = r.choice([" + ", " * ", " AND ", " || "])
+        term = "'s'" if op == " || " else ("TRUE" if op == " AND " else "1")
+        ty = "STRING" if op == " || " else ("BOOLEAN" if op == " AND " else "INTEGER")
+        return "SCHEMA patho;\nCONSTANT c : %s := %s;\nEND_CONSTANT;\nEND_SCHEMA;\n" % (ty, op.join([term] * m))
+    if c == "deep-aggregate-type":
+        return "SCHEMA patho;\nENTITY e; a : " + "LIST [0:?] OF " * n + "INTEGER;\nEND_ENTITY;\nTYPE t = " + "SET OF " * n + "REAL; END_TYPE;\nEND_SCHEMA;\n"
+    if c == "deep-index":
+        return ("SCHEMA patho;\nENTITY e; a : LIST OF LIST OF INTEGER; nxt : e;\nDERIVE\n d : INTEGER := a" + "[1]" * n + ";\n g : INTEGER := SELF" + ".nxt" * n + ".a[1][1];\nEND_ENTITY;\nEND_SCHEMA;\n")
+    if c == "deep-query":
+        q = "a"
+        for k in range(min(n, 30)):
+            q = "QUERY(v%d <* %s | TRUE)" % (k, q)
+        return "SCHEMA patho;\nENTITY e; a : LIST OF INTEGER;\nWHERE\n w : SIZEOF(%s) >= 0;\nEND_ENTITY;\nEND_SCHEMA;\n" % q
+    if c == "many-params":
+        m = n * 10
+        return ("SCHEMA patho;\nFUNCTION f (" + "; ".join("p%d : INTEGER" % k for k in range(m)) + ") : INTEGER;\nRETURN (p0);\nEND_FUNCTION;\n"
+                "CONSTANT c : INTEGER := f(" + ", ".join(["1"] * m) + ");\nEND_CONSTANT;\nEND_SCHEMA;\n")
+    if c == "supertype-expr":
+        subs = ["s%d" % k for k in range(n)]
+        expr = subs[0]
+        for k, x in enumerate(subs[1:]):
+            expr = "(%s %s %s)" % (expr, r.choice(["AND", "ANDOR"]), x) if k % 3 else "ONEOF (%s, %s)" % (expr, x)
+        return ("SCHEMA patho;\nENTITY top SUPERTYPE OF (%s);\n a : INTEGER;\nEND_ENTITY;\n" % expr
+                + "".join("ENTITY %s SUBTYPE OF (top);\nEND_ENTITY;\n" % x for x in subs) + "END_SCHEMA;\n")
+    if c == "subtype-cycle":
+        m = r.choice([1, 2, 3])
+        return ("SCHEMA patho;\n" + "".join("ENTITY e%d SUBTYPE OF (e%d);\n a%d : INTEGER;\nEND_ENTITY;\n" % (k, (k + 1) % m, k) for k in range(m)) + "END_SCHEMA;\n")
+    if c == "select-cycle":
+        m = r.choice([1, 2, 3])
+        return ("SCHEMA patho;\n" + "".join("TYPE s%d = SELECT (s%d); END_TYPE;\n" % (k, (k + 1) % m) for k in range(m)) + "ENTITY e; a : s0;\nEND_ENTITY;\nEND_SCHEMA;\n")
+    if c == "type-cycle":
+        m = r.choice([1, 2, 3])
+        agg = r.choice(["", "LIST OF ", "ARRAY [1:2] OF "])
+        return ("SCHEMA patho;\n" + "".join("TYPE t%d = %st%d; END_TYPE;\n" % (k, agg, (k + 1) % m) for k in range(m)) + "ENTITY e; a : t0;\nEND_ENTITY;\nEND_SCHEMA;\n")
+    if c == "long-where-label":
+        L = r.choice([300, 10000])
+        return "SCHEMA patho;\nENTITY e; a : INTEGER;\nWHERE\n w%s : a > 0;\nEND_ENTITY;\nTYPE t = INTEGER;\nWHERE\n v%s : SELF > 0;\nEND_TYPE;\nEND_SCHEMA;\n" % ("x" * L, "y" * L)
+    if c == "many-enum-items":
+        m = n * 30
+        return "SCHEMA patho;\nTYPE en = ENUMERATION OF (" + ", ".join("item%d" % k for k in range(m)) + "); END_TYPE;\nENTITY e; a : en;\nEND_ENTITY;\nEND_SCHEMA;\n"
+    if c == "rename-clash":
+        return ("SCHEMA a;\nUSE FROM b (e AS g, h AS e, t AS u);\nENTITY %s; x : u;\nEND_ENTITY;\nEND_SCHEMA;\n"
+                "SCHEMA b;\nTYPE t = INTEGER; END_TYPE;\nENTITY e; y : t;\nEND_ENTITY;\nENTITY h; z : e;\nEND_ENTITY;\nEND_SCHEMA;\n" % r.choice(["e", "g", "k", "u"]))
+    if c == "derive-cycle":
+        return ("SCHEMA patho;\nCONSTANT c1 : INTEGER := c2; c2 : INTEGER := c1;\nEND_CONSTANT;\nFUNCTION f (a : INTEGER) : INTEGER;\nRETURN (f(a));\nEND_FUNCTION;\n"
+                "ENTITY e;\nDERIVE\n d1 : INTEGER := d2;\n d2 : INTEGER := d1 + c1;\nEND_ENTITY;\nEND_SCHEMA;\n")
+    return None
